@@ -1195,12 +1195,9 @@ def build_T8r(tree):
     elif len(body) == 2 and isinstance(body[0], ast.For) and isinstance(body[1], ast.Try) and not body[1].handlers \
             and len(body[1].body) == 1 and isinstance(body[1].body[0], ast.Expr) and isinstance(body[1].body[0].value, ast.Yield) \
             and len(body[1].finalbody) == 1 and isinstance(body[1].finalbody[0], ast.For):
-        # the model's `guarded` branch lets the clean-up run while the body's exception propagates; in the real database the
-        # query the body was iterating over is then still open and SQLite refuses to drop the table it reads ("database table is
-        # locked") — tried: reads after a refused read then differ.  The model does not describe that, so this shape is not
-        # accepted as the modelled program.
-        raise Unsupported('_generate_temp_tables: the clean-up moved into try/finally runs while the unfinished frame query still '
-                          'holds the tables (SQLite: table is locked); not the modelled program')
+        # accepted only if no query on the tables can still be open when the clean-up runs (checked below, part 3): otherwise
+        # SQLite refuses the DROP ("database table is locked"), which the model's `guarded` branch does not describe
+        pre_loop, post_loop, guarded = body[0], body[1].finalbody[0], True
     else:
         raise Unsupported('_generate_temp_tables is no longer  for-loop / yield / for-loop')
     for lp in (pre_loop, post_loop):
@@ -1246,6 +1243,33 @@ def build_T8r(tree):
                     todo.append(('_Image', hit))
     writes = sorted(set(writes))
     reach = sorted(f'{a}.{b}' for a, b in seen)
+    # ---- (3) the frame query of the two iterators: run before the yield, its cursor closed in a `finally` around the yield
+    # (an open cursor keeps the temporary tables locked while the caller holds on to the exception of a failed read; the
+    # model's "a table exists or not" is all there is only if no lock survives a read)
+    cur_rows = []
+    for name in ('_iterate_indices_for_stack', '_iterate_indices_for_tiled_region'):
+        f = classes['_Image'].get(name)
+        if f is None:
+            raise Unsupported(name + ' not found')
+        ok = False
+        for t in ast.walk(f):
+            if isinstance(t, ast.Try) and t.finalbody and not t.handlers \
+                    and any(isinstance(x, ast.Expr) and isinstance(x.value, ast.Yield) for x in t.body):
+                closes = [c for fb in t.finalbody for c in ast.walk(fb) if isinstance(c, ast.Call)
+                          and isinstance(c.func, ast.Attribute) and c.func.attr == 'close' and isinstance(c.func.value, ast.Name)]
+                for c in closes:
+                    cname = c.func.value.id
+                    bound = any(isinstance(a, ast.Assign) and len(a.targets) == 1 and isinstance(a.targets[0], ast.Name)
+                                and a.targets[0].id == cname and isinstance(a.value, ast.Call)
+                                and _norm(a.value.func) == 'self._db_con.execute' for a in ast.walk(f))
+                    lazy = any(isinstance(g, ast.GeneratorExp) and any(isinstance(n, ast.Call) and _norm(n.func) == 'self._db_con.execute'
+                                                                       for n in ast.walk(g)) for g in ast.walk(t))
+                    if bound and not lazy:
+                        ok = True
+        cur_rows.append((name, ok))
+    if guarded and not all(ok for _, ok in cur_rows):
+        raise Unsupported('_generate_temp_tables cleans up in try/finally while an iterator may still hold its frame query open '
+                          '(SQLite: table is locked); not the modelled program')
     t1 = ('/-- `_generate_temp_tables`: operations on every table before the `yield` -/\n'
           'def tempTablesPre : List HdVerif.SegState.TempOp := [' + ', '.join(names[o] for o in pre) + ']\n\n'
           '/-- … and after it -/\n'
@@ -1255,7 +1279,10 @@ def build_T8r(tree):
     t2 = ('/-- (function, attribute of `self` it assigns or deletes) over everything reachable from the read entry points -/\n'
           'def readPathSelfWrites : List (String × String) :=\n  [' + ',\n   '.join('("%s", "%s")' % w for w in writes) + ']')
     t3 = ('/-- the functions reached -/\ndef readPathFunctions : List String :=\n  [' + ', '.join('"' + x + '"' for x in reach) + ']')
-    return '\n\n'.join([t1, t2, t3]), span_sha(body) + hashlib.sha256(repr(writes + reach).encode()).hexdigest()[:12]
+    t4 = ('/-- (iterator, the cursor of its frame query is closed in a `finally` around the `yield`) -/\n'
+          'def frameQueryCursorClosed : List (String × Bool) :=\n  [' +
+          ', '.join('("%s", %s)' % (a, 'true' if b else 'false') for a, b in cur_rows) + ']')
+    return '\n\n'.join([t1, t2, t3, t4]), span_sha(body) + hashlib.sha256(repr(writes + reach + cur_rows).encode()).hexdigest()[:12]
 
 
 TARGETS['T8r'] = {'file': 'seg/sop.py', 'build': build_T8r, 'imports': ['HdVerif.Model.SegReadState']}
